@@ -6,7 +6,7 @@ import numpy as np
 
 READER_METHODS = ["inherited_properties", "find_sections", "find_sources", "find_related", "keys", "items", "values",
                   "validate"]
-SKIP = {"file", "pprint", "mode"}          # back reference to the File object / prints / the open mode itself
+SKIP = {"file", "pprint", "mode", "auto_update_timestamps"}          # back reference to the File object / prints / the open mode itself
 
 
 def canon(v, depth=0):
@@ -185,3 +185,69 @@ def path_sweep(f):
             if want.get(k, "absent") != got.get(k, "absent"):
                 diffs.append([lab + "." + k, want.get(k, "absent"), got.get(k, "absent")])
     return n, diffs
+
+
+def ro_mutators(f):
+    """C11, read-only session: every settable attribute (reflection: class properties with a setter) of every entity,
+    dimension, feature and property is assigned (a) None where it currently has a value and (b) the value it already
+    has; either is a write and must be refused with an error.  Returns (number of attempts, list of calls that
+    returned normally)."""
+    n, silent = 0, []
+    for lab, o in entities(f):
+        cls = type(o)
+        for name in sorted(dir(cls)):
+            if name.startswith("_") or name in SKIP:
+                continue
+            attr = None
+            for k in cls.__mro__:
+                if name in k.__dict__:
+                    attr = k.__dict__[name]
+                    break
+            if not isinstance(attr, property) or attr.fset is None:
+                continue
+            try:
+                cur = getattr(o, name)
+            except Exception:
+                continue
+            if cur is None or (hasattr(cur, "__len__") and not isinstance(cur, str) and len(cur) == 0):
+                continue                      # nothing stored: clearing it again would not be a write
+            for what, val in (("None", None), ("its current value", cur)):
+                n += 1
+                try:
+                    setattr(o, name, val)
+                except Exception:
+                    continue
+                silent.append([lab + "." + name, what])
+    return n, silent
+
+
+def decorate(f):
+    """writable session on a scratch copy: give every optional attribute that is still unset a value through the public
+    setter (the first of a few candidates the setter accepts), so that a later read-only session finds something to clear"""
+    n = 0
+    for lab, o in entities(f):
+        cls = type(o)
+        for name in sorted(dir(cls)):
+            if name.startswith("_") or name in SKIP:
+                continue
+            attr = None
+            for k in cls.__mro__:
+                if name in k.__dict__:
+                    attr = k.__dict__[name]
+                    break
+            if not isinstance(attr, property) or attr.fset is None:
+                continue
+            try:
+                if getattr(o, name) is not None:
+                    continue
+            except Exception:
+                continue
+            for val in ("mV", 1.5, [1.5], "x"):
+                try:
+                    setattr(o, name, val)
+                    if getattr(o, name) is not None:
+                        n += 1
+                        break
+                except Exception:
+                    continue
+    return n
